@@ -12,20 +12,21 @@ from ..core import AnalysisError, own_nodes, norm, parents, stmt_of, dominates
 from ..effects import Resolver
 from .. import flow
 
-LEVEL_TEXT = ("static analysis: (D1) each filter body is interpreted, through its require_column wrapper, on one representative segment per order "
-              "position of the quantity it tests (ci_lo / ci_hi / log2 -+ 1.96*sem relative to 0; cn relative to 0 and 5) and the level vector it "
-              "hands to squash_by_groups must be the stated three-valued one (cn: cn itself); ampdel afterwards keeps exactly cn = 0 or cn >= 5; "
-              "a missing column raises; (D2) squash_by_groups groups by the run index of the level (diff -> fillna(0) -> abs -> cumsum) plus "
-              "the chromosome (or arm) ordinal, and the cn1 / cn2 run indices join the group key when present -- so no merge across a "
-              "chromosome or a level change; groups keep their order (sort=False); (D3) squash_region on a symbolic 3-row group: first "
-              "start, last end, probes = sum (or row count), weight = sum, log2 / depth / baf weight-averaged (plain mean when the weights "
-              "sum to 0), cn / cn1 = weighted median of the run, cn2 = cn - cn1, gene = distinct names joined; (D4) do_call applies ci and "
-              "sem before calling copy numbers and the remaining filters after, in list order; the CLI --filter choices are exactly the "
-              "implemented @require_column functions; (D5) at every call of squash_by_groups the level vector is a column of the same table or "
-              "a Series built on the table's index -- a pd.Series(<array>) with a fresh 0..n-1 index is aligned by label against the "
-              "segments and merges the wrong rows on any table whose index is not 0..n-1. Does not decide that neighbouring outputs differ "
-              "in level for arbitrary level sequences (run-length encoding is algorithmic).")
-TECHNIQUE = "abstract interpretation of the filter bodies over order positions; structural group-key rule; closed forms on symbolic groups; dominance; slot-argument (index provenance) agreement"
+LEVEL_TEXT = ('static analysis: (D1) each filter body is interpreted, through its require_column wrapper, on one representative segment per order'
+              ' position of the quantity it tests (ci_lo / ci_hi / log2 -+ 1.96*sem relative to 0; cn relative to 0 and 5) and the level vector '
+              'it hands to squash_by_groups must be the stated three-valued one (cn: cn itself); ampdel afterwards keeps exactly cn = 0 or cn >= '
+              '5; a missing column raises; (D2) squash_by_groups, interpreted on 2566 literal tables (1-4 rows x levels {0,1,2,4} x every '
+              'placement of chromosome boundaries; allele-specific and by-arm variants) with squash_region stubbed, reduces exactly the maximal '
+              'runs of consecutive rows equal in level, chromosome (arm) and, when present, cn1 / cn2, in order; (D3) squash_region on a symbolic'
+              ' 3-row group: first start, last end, probes = sum (or row count), weight = sum, log2 / depth / baf weight-averaged (plain mean '
+              'when the weights sum to 0), cn / cn1 = weighted median of the run, cn2 = cn - cn1, gene = distinct names joined; (D4) do_call '
+              'applies ci and sem before calling copy numbers and the remaining filters after, in list order; the CLI --filter choices are '
+              'exactly the implemented @require_column functions; (D5) at every call of squash_by_groups the level vector is a column of the same'
+              " table or a Series built on the table's index -- a pd.Series(<array>) with a fresh 0..n-1 index is aligned by label against the "
+              'segments and merges the wrong rows on any table whose index is not 0..n-1. Decides the run-length grouping on that scope only '
+              '(longer tables follow the same cumulative-key construction; no induction is attempted).')
+TECHNIQUE = ('abstract interpretation of the filter bodies over order positions; bounded exhaustive interpretation of the grouping on literal '
+             'tables; closed forms on symbolic groups; dominance; slot-argument (index provenance) agreement')
 
 SF = "cnvlib.segfilters"
 
